@@ -39,7 +39,8 @@ MANIFEST = {
                   'set comparison of written vs read (message, field) leaves per converter pair; '
                   'constructor-keyword vs attribute-read comparison on the Python classes; '
                   'enum-table totality/injectivity; write-after-copy dataflow'
-                  '; member-wise evaluation of enum dispatch functions (enumeval); truthiness of plain string fields; name-keyed merging of conditional children; naive-UTC time helpers; shared C10.R1/R6, C16.R8'),
+                  '; member-wise evaluation of enum dispatch functions (enumeval); truthiness of plain string fields; name-keyed merging of conditional children; naive-UTC time helpers; shared C10.R1/R6, C16.R8'
+                  "; cleared-before-rebuilt check for repeated fields of a remembered proto (dominators over the schema's repeated fields); order-preservation provenance for measurements"),
     'level_text': (
         'Static: every field a converter writes is read by its inverse and vice versa, on both '
         'the proto side and the Python-object side; optional scalar presence is decided with '
